@@ -26,3 +26,9 @@ TEXT["C02"] = {
     "design_ref": "DESIGN.md section 3, C02",
     "level_note": "Trusted: internal/model (about 600 lines) as the transcription of interface.go's documented semantics; stated tolerances (empty repository unknown-or-empty, dangling tags, un-coded rejection of malformed manifests, mount size 0).",
 }
+TEXT["C03"] = {
+    "technique": "differential property testing (rapid): generated histories on a bare ocimem vs the same registry behind client->server (1-2 real HTTP hops, generated server options, ocidebug); plus argument-relay check against a recording backend",
+    "level_text": "Two generated-input checks. (A) The same operation history is applied to a bare in-memory registry and to one reached through ociclient->ociserver over loopback HTTP (one or two hops, every server option, client page sizes, ocidebug at every position); each call's success, OCI code (status class for HEAD resolves), descriptor, bytes and listings are compared, and finally everything readable from the two backends. (B) Single client calls with names/tags/digests/media types/offsets/start-after strings from the whole valid domain are sent through the stack to a recording backend, which must see exactly the caller's operation and arguments (uploads: exactly one committed blob with the caller's bytes and digest). Sampling; generator classes in the evidence.",
+    "design_ref": "DESIGN.md section 3, C03",
+    "level_note": "Real net/http over loopback; tolerances listed in the evidence assumptions are part of the oracle and each is traced to documentation in DESIGN.md.",
+}
